@@ -196,6 +196,9 @@ class Cluster:
     """installs the seams for one execution and gives access to the pieces (net, shm namespace, scheduler)"""
 
     def __init__(self):
+        from vf import simcluster
+
+        simcluster.uninstall_seams()  # the worker/controller plumbing must be the real one here
         S = self.sched = Sched()
         self.net = Net()
         self.ns = ShmNamespace()
